@@ -130,7 +130,7 @@ def GoodV (F : ValFam) (s₀ : List Char) (q : Nat) (t : List Char) (r : Res) : 
   match pV P' F.const (toks t) with
   | some (v, ts') =>
     ∃ s' pr, r = .ok (q + (t.length - s'.length)) s' [pr] ∧ toks s' = ts' ∧ s'.length < t.length ∧
-      (∃ mid, t = mid ++ s') ∧ pr.start = q ∧ (finV v = true → Builds s₀ pr v)
+      (∃ mid, t = mid ++ s') ∧ pr.start = q ∧ Builds s₀ pr v
   | none => r = .fail
 
 theorem GoodV.fail {F s₀ q t r} (h : GoodV F s₀ q t r) (hp : pV P' F.const (toks t) = none) : r = .fail := by
@@ -138,7 +138,7 @@ theorem GoodV.fail {F s₀ q t r} (h : GoodV F s₀ q t r) (hp : pV P' F.const (
 
 theorem GoodV.ok {F s₀ q t r v ts'} (h : GoodV F s₀ q t r) (hp : pV P' F.const (toks t) = some (v, ts')) :
     ∃ s' pr, r = .ok (q + (t.length - s'.length)) s' [pr] ∧ toks s' = ts' ∧ s'.length < t.length ∧
-      (∃ mid, t = mid ++ s') ∧ pr.start = q ∧ (finV v = true → Builds s₀ pr v) := by
+      (∃ mid, t = mid ++ s') ∧ pr.start = q ∧ Builds s₀ pr v := by
   unfold GoodV at h; rw [hp] at h; exact h
 
 theorem GoodV.mk_fail {F s₀ q t} (hp : pV P' F.const (toks t) = none) : GoodV F s₀ q t .fail := by
@@ -146,7 +146,7 @@ theorem GoodV.mk_fail {F s₀ q t} (hp : pV P' F.const (toks t) = none) : GoodV 
 
 theorem GoodV.mk_ok {F s₀ q t v ts' s' pr} (hp : pV P' F.const (toks t) = some (v, ts'))
     (h1 : toks s' = ts') (h2 : s'.length < t.length) (hm : ∃ mid, t = mid ++ s') (h3 : pr.start = q)
-    (h4 : finV v = true → Builds s₀ pr v) :
+    (h4 : Builds s₀ pr v) :
     GoodV F s₀ q t (.ok (q + (t.length - s'.length)) s' [pr]) := by
   unfold GoodV; rw [hp]; exact ⟨s', pr, rfl, h1, h2, hm, h3, h4⟩
 
@@ -321,7 +321,7 @@ theorem kwTok_text {x t rest : List Char} (hx : x ∈ kwList) (h : kwTok x t = s
 theorem goodV_scalar {F : ValFam} {s₀ : List Char} {q : Nat} {t s' : List Char} {p1 : Nat} {inner : Pair} {N : Nat}
     {v : PValue} (hev : EvR G0 c0 (.ident F.vName) q t N (.ok p1 s' [Pair.mk F.vName q p1 [inner]]))
     (hp : pV P' F.const (toks t) = some (v, toks s')) (hlt : s'.length < t.length)
-    (hb : finV v = true → Builds s₀ (Pair.mk F.vName q p1 [inner]) v) :
+    (hb : Builds s₀ (Pair.mk F.vName q p1 [inner]) v) :
     ∃ r, EvR G0 c0 (.ident F.vName) q t N r ∧ GoodV F s₀ q t r := by
   have hc := hev.consumes.len
   obtain ⟨mid, hmid, -⟩ := hev.consumes
@@ -381,8 +381,7 @@ theorem value_name_case (F : ValFam) (hF : IsFam F) (s₀ : List Char) (q : Nat)
         [Pair.mk F.vName pre.length (pre.length + 4) [Pair.mk "boolean" pre.length (pre.length + 4) []]]) :=
       hev.cast (by cases F.const <;> simp [firstOk, lenRes])
     refine goodV_scalar (v := .bool true) hev' (by rw [hpv]; simp [h1, kwTrue, kw]) hlt ?_
-    · intro _
-      have := build_boolean s₀ F.vName pre.length 4 t hat
+    · have := build_boolean s₀ F.vName pre.length 4 t hat
       rw [htxt] at this
       simpa [kwTrue] using this
   by_cases h2 : n = kwFalse
@@ -396,8 +395,7 @@ theorem value_name_case (F : ValFam) (hF : IsFam F) (s₀ : List Char) (q : Nat)
         [Pair.mk F.vName pre.length (pre.length + 5) [Pair.mk "boolean" pre.length (pre.length + 5) []]]) :=
       hev.cast (by cases F.const <;> simp [firstOk, lenRes])
     refine goodV_scalar (v := .bool false) hev' (by rw [hpv]; simp [h2, kwFalse, kw]) hlt ?_
-    · intro _
-      have := build_boolean s₀ F.vName pre.length 5 t hat
+    · have := build_boolean s₀ F.vName pre.length 5 t hat
       rw [htxt] at this
       simpa [kwFalse] using this
   have hbt : boolTok t = none := by simp [boolTok, k4, h1, h2]
@@ -414,7 +412,7 @@ theorem value_name_case (F : ValFam) (hF : IsFam F) (s₀ : List Char) (q : Nat)
       hev.cast (by cases F.const <;> simp [firstOk])
     refine goodV_scalar (v := .null) hev'
       (by rw [hpv]; simp [h3, kwNull, kw]) hlt ?_
-    · intro _; exact build_null s₀ F.vName pre.length (pre.length + 4) (by omega)
+    · exact build_null s₀ F.vName pre.length (pre.length + 4) (by omega)
   · have hnt : kwTok kwNull t = none := by rw [k4]; simp [h3]
     have hnf := ev_null_fail pre.length t ht hnt
     have hkv : isKwValue t = false := by simp [isKwValue, hbt, hnt]
@@ -434,8 +432,7 @@ theorem value_name_case (F : ValFam) (hF : IsFam F) (s₀ : List Char) (q : Nat)
         have g2 : ¬ n = "false".toList := h2
         have g3 : ¬ n = "null".toList := h3
         rw [hpv]; simp only [kw, g1, g2, g3, if_false]) hlt ?_
-    · intro _
-      have := build_enum s₀ F.vName pre.length n.length t hat hnpos
+    · have := build_enum s₀ F.vName pre.length n.length t hat hnpos
       rw [htxt] at this
       simpa using this
 
@@ -481,12 +478,10 @@ theorem value_number_case (F : ValFam) (hF : IsFam F) (s₀ : List Char) (q : Na
   cases tok with
   | int neg ds =>
     refine goodV_scalar hev' (by rw [hts, pV_int]) hlt ?_
-    intro _
     exact build_int s₀ F.vName pre.length t rest ds neg hat hln
   | float neg ip fr en ex =>
     refine goodV_scalar hev' (by rw [hts, pV_float]) hlt ?_
-    intro h
-    exact build_float s₀ F.vName pre.length t rest ip fr ex neg en hat hln (by simpa [finV] using h)
+    exact build_float s₀ F.vName pre.length t rest ip fr ex neg en hat hln
   | _ => simp [isNumTok] at hk
 
 theorem tok_str {t rest v : List Char} (hl : lexToken t = some (.str v, rest)) :
@@ -527,7 +522,7 @@ theorem value_string_case (F : ValFam) (hF : IsFam F) (s₀ : List Char) (q : Na
           [Pair.mk "string" pre.length (pre.length + (t.length - rest.length)) [qp]]]) :=
     hev.cast (by cases F.const <;> simp [firstOk])
   refine goodV_scalar hev' (by rw [hts, pV_str]) hlt ?_
-  intro _ bf hbf
+  intro bf hbf
   obtain ⟨bf, rfl⟩ : ∃ b, bf = b + 1 := ⟨bf - 1, by omega⟩
   have e : buildValue (envOf s₀) (bf + 1)
       (Pair.mk F.vName pre.length (pre.length + (t.length - rest.length))
@@ -537,7 +532,7 @@ theorem value_string_case (F : ValFam) (hF : IsFam F) (s₀ : List Char) (q : Na
         [Pair.mk "string" pre.length (pre.length + (t.length - rest.length)) [qp]]) := by
     subst hs0
     simp [buildValue, Pair.inner, Pair.rule, envOf]
-  rw [e, hq2]; rfl
+  rw [e, hq2]; simp [expV, finV, normV]
 
 theorem pName_toks (u : List Char) (hu : TokStart u) :
     pName (toks u) = (nameTok u).map (fun x => (x.1, toks x.2)) := by
@@ -631,7 +626,6 @@ theorem value_variable_case (F : ValFam) (hF : IsFam F) (s₀ : List Char) (q : 
                 [Pair.mk "name" (skipPos (pre.length + 1) rest) (skipPos (pre.length + 1) rest + n.length) []]]]) :=
         hev.cast (by rw [hc]; simp [firstOk])
       refine goodV_scalar (v := .var n) hev' (by rw [hc, hpv]; rfl) hl2 ?_
-      intro _
       have := build_variable s₀ F.vName pre.length (skipPos (pre.length + 1) rest)
         (skipPos (pre.length + 1) rest + n.length) n.length (skipI rest) hat1.skip
       rw [htxt] at this
